@@ -21,15 +21,24 @@ def c07 (op : String) (a : Array Json) : R (Option Json) := do
   | "c07_summary" =>
     pure (some (okJ (Json.mkObj [
       ("sound", Json.bool (soundB Gen.fillPolicy)),
-      ("knownDropPresent", Json.bool (knownDropPresent Gen.fillPolicy)),
       ("publicDrops", listJ Json.str (publicDrops Gen.fillPolicy)),
       ("privateDrops", listJ Json.str (privateDrops Gen.fillFacts Gen.fillPolicies)),
       ("guardsOk", Json.bool (guardsOk Gen.fillPolicy)),
       ("isSolution", Json.bool (isSolution Gen.fillFacts Gen.fillPolicies)),
       ("zeroOnly", listJ Json.str zeroOnly), ("joins", listJ Json.str joins), ("exports", listJ Json.str exports)])))
-  | "c07_excluded" =>
-    let n ← (← arg a 1).getStr?
-    pure (some (okJ (Json.bool (ExcludedDrops n))))
+  | "c07_fill_contribution" =>
+    -- [fill, missing, sum of the stored elements of the lane]  fill: an integer, or "inf" / "-inf" / "nan"
+    let f ← (match (← arg a 1) with
+      | Json.str "inf" => pure Ext.posInf | Json.str "-inf" => pure Ext.negInf | Json.str "nan" => pure Ext.nan
+      | j => Ext.fin <$> jInt j : R Ext)
+    let n ← jNat (← arg a 2)
+    let show_ : Ext → Json := fun e => match e with
+      | .fin q => intJ q | .posInf => Json.str "inf" | .negInf => Json.str "-inf" | .nan => Json.str "nan"
+    let stored ← jInt (← arg a 3)
+    pure (some (okJ (Json.mkObj [("code", show_ (Gen.fillContribution f n)), ("spec", show_ (sumRep f n)),
+                                 ("lane_sum", show_ (Ext.add (Ext.fin stored) (Gen.fillContribution f n))),
+                                 ("lane_sum_spec", show_ (Ext.add (Ext.fin stored) (sumRep f n))),
+                                 ("excluded", Json.bool (ExcludedFullLane f n))])))
   | "c07_array_guard" =>
     let ad ← jBool (← arg a 1)
     pure (some (exceptJ (fun _ => Json.str "dense") (Gen.arrayGuard ad)))
